@@ -51,7 +51,11 @@ def sub(argv, timeout, tag):
 
 def run_condition(mod, c):
     scale = float(os.environ.get("VF_TIMEOUT_SCALE", "1"))     # smoke runs of a tier (recorded in the evidence as bounds.timeout_scale)
-    if scale != 1 and c.get("kind") != "twin":          # reachability twins keep their full budget
+    if c.get("kind") == "twin":
+        # a twin ends as soon as its assert(False) is reached, so a generous budget costs nothing when the harness is healthy
+        # and keeps a loaded machine from turning "slow" into "vacuous"
+        c = dict(c, timeout=max(3 * c["timeout"], 180))
+    elif scale != 1:
         c = dict(c, timeout=max(5, int(c["timeout"] * scale)))
     argv = [PY, "-m", "vf.chrun", mod, c["name"], str(c["timeout"])]
     if c.get("per_path"):
